@@ -34,8 +34,7 @@ CHECKS["C16"] = dict(
          "API and the projected graph plus all query results after each call are validated by TLC.",
     note="Trusted: TLC, the harness projection (pointer identity mapped to object ids). Domain: "
          "unique member names, replaced objects are not brought back, raw cells needed by other "
-         "raw cells are not replaced. One initial library shape (shared sub-cell, by-name refs to "
-         "cells, raw cells and absent cells, two raw-cell files).",
+         "raw cells are not replaced. Two initial library shapes (shared sub-cell, by-name refs to cells, raw cells and absent cells, two raw-cell files; and more raw cells than cells); tag t1 is the all-zero tag and tag maps are grown past their first capacity.",
     design="4 C16")
 
 CHECKS["C11"] = dict(
@@ -97,8 +96,9 @@ CHECKS["C01"] = dict(
          "strictly decoded file against Norm(description) (rounding to the grid, repetitions "
          "expanded, arrays as placement sets, simple paths by centre line/width/end/extension, "
          "GDSII properties as maps, units and timestamps).",
-    note="Trusted: TLC, harness builder/projection. Not yet covered: non-simple paths and vertex "
-         "limits (need the region semantics of Region.tla), strings near 64 kB.",
+    note="Trusted: TLC, harness builder/projection. Polygons longer than the vertex "
+         "limit and non-simple Flex/RobustPaths go through write_gds / read_gds and are compared as "
+         "regions on exact sample points (Region.tla). Not covered: strings near 64 kB.",
     design="4 C01")
 CHECKS["C17"] = dict(
     level="model_checking",
@@ -257,7 +257,8 @@ CHECKS["C15"] = dict(
          "observations.",
     note="Trusted: TLC, Paths.tla, the harness's distance measuring (sampling + ternary search, "
          "~120 lines). Hobby interpolation only as 'passes through the points'; command strings "
-         "not yet replayed; fillets held to the tolerance, not to exactness.",
+         "are issued through Curve::commands one instruction at a time and as one array; fillets held "
+         "to 2.25 tolerances (round-to-nearest segment count), not to exactness.",
     design="4 C15")
 
 CHECKS["C07"] = dict(
@@ -316,7 +317,7 @@ CHECKS["C04"] = dict(
     text="Forward: TLC walks the modal machine (every record kind and info-byte pattern incl. modal "
          "reuse, absolute / relative mode, all 12 repetition types, 6 point-list types, 8 real "
          "encodings, RECTANGLE / POLYGON / PATH / TRAPEZOID x3 / all 26 CTRAPEZOID types / CIRCLE / "
-         "TEXT / PLACEMENT x2 / PROPERTY x2, names inline or through tables placed anywhere with "
+         "TEXT / PLACEMENT x2 / PROPERTY x2 / XNAME / XELEMENT / XGEOMETRY, names inline or through tables placed anywhere with "
          "implicit or explicit numbers, stored and fixed-Huffman CBLOCKs, PAD, LAYERNAME, signatures); "
          "TLC checks that every generated file is legal and decodes to the layout the machine built; "
          "each file is loaded by read_oas and the result must equal the strict decoder's layout "
@@ -327,8 +328,7 @@ CHECKS["C04"] = dict(
          "and the S_* standard properties must be true of the file.",
     note="Trusted: TLC, Oasis.tla as my reading of SEMI P39 (no copy of the standard in the sandbox: "
          "CTRAPEZOID figures and TRAPEZOID deltas from memory), harness projection in 1/1000 grid "
-         "unit, zlib for nothing (the specification inflates itself). Not generated: XNAME / XELEMENT / "
-         "XGEOMETRY, modal reuse of a dimension after a CTRAPEZOID type that does not use it, integers "
+         "unit, zlib for nothing (the specification inflates itself). Not generated: modal reuse of a dimension after a CTRAPEZOID type that does not use it, integers "
          "beyond 2^30 in geometry, dynamic-Huffman CBLOCKs on the forward side (decoded on the reverse side). "
          "S_BOUNDING_BOX is only checked for cells whose box is computable exactly (Manhattan paths, "
          "quarter-turn integer-magnification references).",
@@ -350,8 +350,7 @@ CHECKS["C02"] = dict(
          "detected circles [M] inside a tolerance annulus), later save/load cycles must reproduce "
          "the first reload, the grid must not drift and a requested signature must validate.",
     note="Trusted: TLC, harness projection. Standard properties are excluded from the cycle "
-         "comparison (they are recomputed per save; their truth is C04's clause). RobustPaths and "
-         "paths with offsets or round ends are outside the property's quantifier and not generated. "
+         "comparison (they are recomputed per save; their truth is C04's clause). Simple RobustPaths made of straight sections are included; paths with offsets or round ends are outside the property's quantifier and not generated. "
          "thorough sweeps the full 256 x 10 x 2 option product; quick samples all 256 flag sets once.",
     design="4 C02")
 
